@@ -104,7 +104,7 @@ def standin_schedule(tier, seed):
             violations.append(dict(key=f"step power {power} inside (0.5, 1] is refused ({type(e).__name__})"))
     uniq = {v["key"]: v for v in violations}
     return dict(evaluations=evals, distinct_nontrivial=len(distinct), rule="one evaluation = one iteration of a real fit whose maximisation statistics are recomputed independently (or one constructor call); distinct = (model, settings)",
-                samples=samples, violations=list(uniq.values())[:8], bound=dict(model_kinds=len(kinds), settings=len(grid), exhaustive=False))
+                samples=samples, violations=list(uniq.values())[:60], bound=dict(model_kinds=len(kinds), settings=len(grid), exhaustive=False))
 
 
 STANDINS = [standin_schedule]
